@@ -143,14 +143,16 @@ func encMsgpack(out []byte, v *val, p *picker) []byte {
 		return append(out, v.s...)
 	case kBytes:
 		if v.raw {
-			// ext types: torepr returns the payload as the raw byte string; ext8 or fixext (ext16/ext32 are a known finding)
+			// ext types: torepr returns the payload as the raw byte string; ext8/16/32 or fixext
 			ty := []byte{0, 5, 0x7f, 0x80, 0xff}[p.pick(5)]
 			switch n := len(v.s); {
 			case (n == 1 || n == 2 || n == 4 || n == 8 || n == 16) && p.pick(2) == 0:
 				t := map[int]byte{1: 0xd4, 2: 0xd5, 4: 0xd6, 8: 0xd7, 16: 0xd8}[n]
 				return append(append(out, t, ty), v.s...)
 			default:
-				return append(append(out, 0xc7, byte(n), ty), v.s...)
+				fs := mpLenForms(n, -1, true)
+				out = mpHead(out, fs[p.pick(len(fs))], n, 0, 0xc7, 0xc8, 0xc9)
+				return append(append(out, ty), v.s...)
 			}
 		}
 		fs := mpLenForms(len(v.s), -1, true)
